@@ -38,13 +38,20 @@ LEVEL_TEXT = ("Proof: in the model of the gridding / rate-lookup / accumulation 
               "terms summed in ANY two orders and bracketings (numpy.sum pairwise blocks, sum(), cumsum) the results differ by at most "
               "((1+u)^d + (1+u)^d' - 2) * sum|x|, u = 2^-53 (float_sum_any_order_close; explicit (d+d')*2^-52*sum|x| up to 2^52 terms), "
               "sums of counts below 2^53 are exact in every order (float_sum_integers_exact); numpy.sum's pairwise algorithm and the "
-              "sequential sum are modelled on Soft64 and agree with numpy bit for bit on every generated term list.")
+              "sequential sum are modelled on Soft64 and agree with numpy bit for bit on every generated term list. "
+              "Round 6 prep: the pairwise algorithm is PROVED to be a bracketing of its terms of depth <= 25 + levels "
+              "(numpy_sum_is_bracketing), so the bound holds for numpy.sum by theorem: numpy.sum of permuted float64 terms differs by "
+              "at most (25 + f) * 2^-51 * sum|x| for up to 112*2^f + 16 terms (numpy_sum_perm_close_explicit), sums of counts are exact "
+              "(numpy_sum_integers_exact); the single validated statement left is 'numpy.sum of a contiguous float64 array = "
+              "pairwiseSum'. The paired T / binary T public wrappers, the exact-layer W statistics (rank sums, tie term via the distinct "
+              "values) and the binary S / CL / Brier test pipelines of the concrete C08 / C16 models are proved invariant under "
+              "permutation of the observed events (Properties/C20_Paired.lean).")
 LEVEL_NOTE = ("The model takes the (cell, bin) index of each event as given for Cartesian regions (region lookup is property "
               "C01/C02), for quadtree regions it locates the events itself from the region's boxes (first hit, no memory) and takes the "
               "random stream as an input; scipy's poisson/nbinom/t/norm distribution functions and rankdata are represented "
               "by their specification or left as parameters; float rounding of log is not modelled; float rounding of SUMS is bounded by "
-              "theorem (Properties/C20_FloatSum.lean) but the bracketing numpy.sum uses is only validated, not proved to be a tree of the "
-              "theorem's kind; results are compared to 1e-9 relative, seeded simulations bit for bit. Storage orders exercised since "
+              "theorem (Properties/C20_FloatSum.lean) for every bracketing, numpy.sum's own included (its algorithm is modelled, proved "
+              "to be a bracketing, and validated bit for bit); results are compared to 1e-9 relative, seeded simulations bit for bit. Storage orders exercised since "
               "round 4: memory layout of the rate arrays (C / Fortran / transposed / negatively strided / sliced), cell order of CSEP1 "
               "ascii forecast FILES and catalog order of csep-ascii catalog-forecast FILES read by the library's loaders; every "
               "statistic also against the exact-reference models (c05_test, c16_test, c10_s/pl/m, c20_ttest/wtest).")
@@ -76,7 +83,14 @@ THEOREMS = ["PermInv.counts_perm", "PermInv.counts_spec", "PermInv.target_rates_
             "PermInv.Concrete.catalog_tests_perm_observed",
             "FloatSum.float_sum_bracketing_error", "FloatSum.float_sum_any_order_close", "FloatSum.pow_bound",
             "FloatSum.float_sum_any_order_close_explicit", "FloatSum.seq_sum_perm_close", "FloatSum.float_sum_integers_exact",
-            "FloatSum.float_sum_integers_any_order"]
+            "FloatSum.float_sum_integers_any_order",
+            # numpy.sum itself (Proofs/FloatSumPairwise.lean) and the concrete paired / binary tests (Properties/C20_Paired.lean)
+            "FloatSum.numpy_sum_is_bracketing", "FloatSum.numpy_sum_error", "FloatSum.numpy_sum_perm_close",
+            "FloatSum.numpy_sum_perm_close_explicit", "FloatSum.numpy_sum_integers_exact",
+            "PermInv.Concrete.eraseDups_perm", "PermInv.Concrete.tieTerm_perm", "PermInv.Concrete.wStatsD_perm",
+            "PermInv.Concrete.wStats_perm_events", "PermInv.Concrete.pairedTPub_perm_events",
+            "PermInv.Concrete.binaryTPub_perm_events", "PermInv.Concrete.pairedT_perm_cells",
+            "PermInv.Concrete.binaryTests_perm_events"]
 TRUSTED = ["Lean 4.33 kernel", "axioms: propext, Classical.choice, Quot.sound at most",
            "the (cell, bin) index the region lookup assigns to an event is an input of the model (events are generated "
            "strictly inside cells and bins; the lookup itself is properties C01/C02)",
@@ -117,7 +131,11 @@ RULE = ("random regions of 1..40 cells (random subsets of a lattice, stored in r
         "base order, latitude-major north-to-south, lon-major ascending and shuffled, and the synthetic catalogs to a csep-ascii "
         "catalog-forecast file in two catalog orders (explicit rows for empty catalogs), load them with GriddedForecast.load_ascii / "
         "csep.load_catalog_forecast and evaluate: every order must agree with the in-memory base input and with the exact-reference "
-        "models")
+        "models. Round 6 prep: every case draws whether the public keyword arguments are passed as keywords or positionally, whether "
+        "the observed catalog object is a CSEPCatalog or a UCERF3Catalog (big-endian structured rows), zero rates spelled -0.0 in 30 % "
+        "of the zero-rate forecasts; forecast files are loaded alternately through GriddedForecast.load_ascii and the module-level "
+        "csep.load_gridded_forecast; the rates of the shared forecast objects and the injected numbers must be unchanged after all "
+        "evaluations")
 
 REL, ABS = 1e-9, 1e-12
 GRIDDED_SIM = ["poisson_L", "poisson_CL", "poisson_S", "poisson_M", "binary_S", "binary_CL", "brier"]
@@ -308,6 +326,21 @@ def _gen_input_core(rng, tier, force=None):
     m0 = rng.choice([2.5, 4.0, 4.95, 5.0])
     mags = [_r(m0 + k * dm) for k in range(nb)]
     kind1, kind2, rates1, rates2 = _gen_rates(rng, nc, nb)
+    mirror_pairs = []
+    if nc >= 2 and rng.random() < 0.15:
+        # MIRROR-IMAGE forecasts: the second is the first with pairs of cells swapped; dyadic rates, so both totals are equal
+        # exactly in every summation order. An event in each cell of a swapped pair gives log-rate differences of the same
+        # absolute value and opposite sign: tied absolute ranks across signs in the W-test
+        kind1, kind2 = "mirror", "mirror"
+        rates1 = [[rng.choice([0.125, 0.25, 0.5, 1.0, 2.0, 4.0]) for _ in range(nb)] for _ in range(nc)]
+        idx = list(range(nc))
+        rng.shuffle(idx)
+        swap = list(range(nc))
+        for a, b in zip(idx[0::2], idx[1::2]):
+            if rates1[a] != rates1[b] or rng.random() < 0.3:
+                swap[a], swap[b] = b, a
+                mirror_pairs.append((a, b))
+        rates2 = [list(rates1[swap[c]]) for c in range(nc)]
 
     def event(k, c, b):
         lon = origins[c][0] + dh * rng.uniform(0.25, 0.75)
@@ -315,6 +348,12 @@ def _gen_input_core(rng, tier, force=None):
         mag = mags[b] + dm * rng.uniform(0.25, 0.75)
         return [k, rng.randrange(10 ** 9, 2 * 10 ** 12), lat, lon, rng.uniform(0, 30), mag, c, b]
     events, cats = _gen_catalogs(rng, big, nc, nb, rates1, kind1, event)
+    for a, b in mirror_pairs[:4]:
+        bn = rng.randrange(nb)
+        for c in [a, b] + ([a] if rng.random() < 0.3 else []):
+            events.insert(rng.randint(0, len(events)), event(0, c, bn))
+    for k, e in enumerate(events):
+        e[0] = k
     nperm = rng.choice([4, 5]) if big else 3
     ev_perms = _perm_list(rng, len(events), nperm)
     if len(events) >= 2:
@@ -338,6 +377,8 @@ def _gen_kw(rng):
     return dict(t_alpha=rng.choice([0.05, 0.05, 0.01, 0.1]), t_scale=rng.random() < 0.2, w_scale=rng.random() < 0.2,
                 sim_mode=rng.choice(["seed", "seed", "global-seed", "random_numbers"]),   # how the random stream is fixed
                 mll_full=rng.random() < 0.3, verbose=rng.random() < 0.3,
+                call_form=rng.choice(["keyword", "keyword", "positional"]),   # public keyword arguments as keywords / positionally
+                obs_class=rng.choice(["CSEPCatalog", "CSEPCatalog", "UCERF3Catalog"]),   # class of the observed catalog object
                 obs_region=rng.choice(["bound", "bound", "none"]))     # observed catalog with / without its own region (D40)
 
 
@@ -355,6 +396,8 @@ def _gen_rates(rng, nc, nb, allow_zeros=True):
                     out[c][rng.randrange(nb)] = 0.0
             if all(v == 0.0 for row in out for v in row):
                 out[0][0] = 1.0
+            if rng.random() < 0.3:
+                out = [[(-0.0 if v == 0.0 else v) for v in row] for row in out]     # zero rates spelled as NEGATIVE zero
         return out
     kind1 = rng.choice(["pos", "pos", "pos", "zeros", "equal"] if allow_zeros else ["pos", "pos", "equal"])
     kind2 = rng.choice(["pos", "pos", "equal"]) if kind1 != "equal" else "pos"
@@ -413,9 +456,10 @@ def _gen_input_qt(rng, tier, shape):
             q = rng.choice(cand)
             i = keys.index(q)
             keys[i:i + 1] = [q + d for d in "0123"]
-        if rng.random() < 0.3 and len(keys) > 4:
+        if rng.random() < 0.45 and len(keys) > 4:
             for q in rng.sample(keys, rng.randint(1, len(keys) // 3)):          # partial coverage of the globe
                 keys.remove(q)
+                qt.setdefault("removed", []).append(q)
         rng.shuffle(keys)                                                         # arbitrary storage order of the tiles
     else:
         qt["threshold"] = rng.choice([1, 2, 4, 8])
@@ -446,11 +490,25 @@ def _gen_input_qt(rng, tier, shape):
     n_obs = rng.choice([0, 1, 2, 3, rng.randint(4, 20), rng.randint(4, 20), rng.randint(10, nmax)])
     events, cats = _gen_catalogs(rng, big, nc, nb, rates1, kind1, event, n_obs=n_obs)
     cats = cats[:12]
+    if qt.get("removed") and rng.random() < 0.7:
+        # events that lie in NO tile (inside a removed tile, i.e. inside the grid's bounding box): observed and synthetic
+        def gap_event(k):
+            w, s_, e, n = _qt_box(rng.choice(qt["removed"]))
+            return [k, rng.randrange(10 ** 9, 2 * 10 ** 12), s_ + (n - s_) * rng.uniform(0.1, 0.9), w + (e - w) * rng.uniform(0.1, 0.9),
+                    rng.uniform(0, 30), mags[rng.randrange(nb)] + dm * rng.uniform(0.25, 0.75), None, rng.randrange(nb), "gap"]
+        for _ in range(rng.randint(1, 3)):
+            events.append(gap_event(len(events)))
+        for cc in cats:
+            if rng.random() < 0.3:
+                cc.append(gap_event(len(cc)))
+        for e in events:
+            if e[8] == "gap":
+                e[7] = min(nb - 1, max(0, int((e[5] - mags[0]) / dm)))
     # companions: an event strictly inside the tile that lies west / south / south-west of an edge event
     adjacent = []
     for e in list(events):
         how = e[8]
-        if how == "in" or rng.random() < 0.15:
+        if how in ("in", "gap") or rng.random() < 0.15:
             continue
         w, s_, east, north = boxes[e[6]]
         dx, dy = (east - w) * rng.uniform(0.02, 0.2), (north - s_) * rng.uniform(0.02, 0.2)
@@ -574,6 +632,10 @@ def _write_catalog_forecast_file(path, cats, skip_empty=False):
                 f.write(f"{float(e[3])!r},{float(e[2])!r},{float(e[5])!r},{t.strftime('%Y-%m-%dT%H:%M:%S.%f')},{float(e[4])!r},{cid},{e[0]}\n")
 
 
+import datetime as _dt
+T0, T1 = _dt.datetime(2020, 1, 1), _dt.datetime(2021, 1, 1)      # every forecast carries its time window (366 days): scale=True evaluates
+
+
 def _objects(inp, ev_perm=None, cat_perm=None, cell_perm=None, share=None, layout=None, via_file=False, cf_via_file=False):
     """pyCSEP objects of one variant. share: the objects of another variant with the same cell order whose region and
     forecast OBJECTS are re-used (only the catalogs are new) - state kept on a region or forecast between evaluations of
@@ -605,8 +667,8 @@ def _objects(inp, ev_perm=None, cat_perm=None, cell_perm=None, share=None, layou
                 d1 = numpy.array([inp["rates1"][row.get(q, 0)] for q in got], dtype=float)
                 d2 = numpy.array([inp["rates2"][row.get(q, 0)] for q in got], dtype=float)
         lay = layout or inp.get("layout", "C")
-        f1 = GriddedForecast(data=_lay(d1, lay), region=region, magnitudes=mags, name="f1")
-        f2 = GriddedForecast(data=_lay(d2, lay), region=region, magnitudes=mags, name="f2")
+        f1 = GriddedForecast(start_time=T0, end_time=T1, data=_lay(d1, lay), region=region, magnitudes=mags, name="f1")
+        f2 = GriddedForecast(start_time=T0, end_time=T1, data=_lay(d2, lay), region=region, magnitudes=mags, name="f2")
     if via_file:
         import os
         import tempfile
@@ -614,11 +676,26 @@ def _objects(inp, ev_perm=None, cat_perm=None, cell_perm=None, share=None, layou
             p1, p2 = os.path.join(td, "f1.dat"), os.path.join(td, "f2.dat")
             _write_forecast_file(p1, inp, sigma, inp["rates1"])
             _write_forecast_file(p2, inp, sigma, inp["rates2"])
-            f1 = GriddedForecast.load_ascii(p1, name="f1")
-            f2 = GriddedForecast.load_ascii(p2, name="f2")
+            if via_file == "module-loader":
+                import csep
+                f1 = csep.load_gridded_forecast(p1, name="f1", start_date=T0, end_date=T1)   # module-level loader (dispatch on the extension)
+                f2 = csep.load_gridded_forecast(p2, name="f2", start_date=T0, end_date=T1)
+            else:
+                f1 = GriddedForecast.load_ascii(p1, name="f1", start_date=T0, end_date=T1)
+                f2 = GriddedForecast.load_ascii(p2, name="f2", start_date=T0, end_date=T1)
         region = f1.region            # the region the loader built from the file's cells, in the file's order
 
-    def mk_cat(evs, cid=None, with_region=True):
+    obs_class = (inp.get("kw") or {}).get("obs_class", "CSEPCatalog")
+
+    def mk_cat(evs, cid=None, with_region=True, observed=False):
+        if observed and obs_class == "UCERF3Catalog":
+            # the other concrete catalog class: big-endian structured rows with further columns
+            from csep.core.catalogs import UCERF3Catalog
+            a = numpy.zeros(len(evs), dtype=UCERF3Catalog._get_catalog_dtype(3))
+            for k, e in enumerate(evs):
+                a[k]["origin_time"], a[k]["latitude"], a[k]["longitude"], a[k]["depth"], a[k]["magnitude"] = (
+                    int(e[1]), float(e[2]), float(e[3]), float(e[4]), float(e[5]))
+            return UCERF3Catalog(data=a, region=region if with_region else None, catalog_id=cid)
         return CSEPCatalog(data=_rows(evs), region=region if with_region else None, catalog_id=cid)
 
     keep = []
@@ -646,8 +723,8 @@ def _objects(inp, ev_perm=None, cat_perm=None, cell_perm=None, share=None, layou
         boxes = None
         ev_cells, cat_cells = [pi[e[6]] for e in events], [[pi[e[6]] for e in c] for c in cats]
         nc_eff = nc
-    return SimpleNamespace(keep=keep, region=region, catalog=mk_cat(events), mk_catalog=lambda: mk_cat(events),
-                           mk_catalog_nr=lambda: mk_cat(events, None, False), f1=f1, f2=f2, d1=d1,
+    return SimpleNamespace(keep=keep, region=region, catalog=mk_cat(events, observed=True), mk_catalog=lambda: mk_cat(events, observed=True),
+                           mk_catalog_nr=lambda: mk_cat(events, None, False, observed=True), f1=f1, f2=f2, d1=d1,
                            d2=d2, mk_cf=mk_cf, sigma=sigma, pi=pi, nc=nc_eff, nb=len(inp["mags"]), events=events, cats=cats,
                            ev_cells=ev_cells, ev_bins=[e[7] for e in events], boxes=boxes, keys_ok=keys_ok,
                            located=all(c is not None for c in ev_cells) and all(c is not None for cc in cat_cells for c in cc),
@@ -679,10 +756,15 @@ def _outcome(r):
     return dict(obs=_flat(r.observed_statistic), q=_flat(r.quantile), dist=_flat(r.test_distribution), status=r.status)
 
 
+CALL = dict(form="keyword")
+
+
 def _call(f, *a, **k):
+    from .c06 import call_form
     try:
         with contextlib.redirect_stdout(io.StringIO()), numpy.errstate(all="ignore"):
-            return _outcome(f(*a, **k))
+            # keyword arguments as keywords, or POSITIONALLY in the order of the function's signature (round 6 pre-emption)
+            return _outcome(call_form(f, a, k, CALL["form"]))
     except Exception as e:       # an outcome like any other: it has to be the same for every storage order
         return dict(exc=type(e).__name__)
 
@@ -717,6 +799,7 @@ def _evaluate(o, inp, names):
     seed, nsim = inp["seed"], inp["nsim"]
     safe = _binary_safe(o, inp)
     kw = inp.get("kw") or {}
+    CALL["form"] = kw.get("call_form", "keyword")
     mode = kw.get("sim_mode", "seed")
     vb = bool(kw.get("verbose", False))
     n_obs = len(o.events)
@@ -734,7 +817,11 @@ def _evaluate(o, inp, names):
             return _call(f, *a, num_simulations=nsim, verbose=vb)
         if mode == "random_numbers" and name in ("poisson_CL", "poisson_S", "poisson_M") and n_obs > 0:
             rn = numpy.random.RandomState(seed % (2 ** 32)).random_sample((nsim, n_obs))
-            return _call(f, *a, num_simulations=nsim, seed=seed, random_numbers=rn, verbose=vb)
+            keep_rn = rn.copy()
+            oc = _call(f, *a, num_simulations=nsim, seed=seed, random_numbers=rn, verbose=vb)
+            if not numpy.array_equal(rn, keep_rn):
+                return dict(exc="the injected random numbers were modified by the test")
+            return oc
         return _call(f, *a, num_simulations=nsim, seed=seed, verbose=vb)
 
     def seeded_cat(f, **k):
@@ -1392,8 +1479,8 @@ def check_input(run, inp, rng, tag="gen"):
             corr.concrete(o, f"layout{k}", res)
     # the forecasts written to CSEP1 ascii files with the cell blocks in several orders and loaded with the library's loader
     for k, p in enumerate(inp.get("file_perms") or []):
-        o, res = variant("cells", 100 + k, GRIDDED_, cell_perm=p, via_file=True)
-        run.count("file-variant:gridded-ascii")
+        o, res = variant("cells", 100 + k, GRIDDED_, cell_perm=p, via_file="module-loader" if k % 2 else "classmethod")
+        run.count("file-variant:gridded-ascii:" + ("csep.load_gridded_forecast" if k % 2 else "GriddedForecast.load_ascii"))
         if sane(o, f"file{k}"):
             corr.counts(o, f"cells-file{k}")
             corr.jointll(o, f"file{k}", res)
@@ -1422,6 +1509,30 @@ def check_input(run, inp, rng, tag="gen"):
                 corr.normll(o, f"cells{k}", res)
     if not inp.get("no_session"):
         nvar += _inplace_session(run, inp, base_o, base, corr, judge)
+    # ALIASING OF RETURNED OBJECTS + HISTORY: every array the public API of the shared forecast objects / a catalog hands out is
+    # overwritten in place by the caller, then ALL evaluations are repeated on the SAME forecast objects (fresh catalog objects of
+    # the base order) after the permuted runs, scale=True variants included: the outcome must be the base outcome
+    if not inp.get("tile"):
+        try:
+            probe = base_o.mk_catalog()
+            for arr in (base_o.f1.data, base_o.f2.data, base_o.f1.spatial_counts(), base_o.f1.magnitude_counts(),
+                        probe.spatial_counts(), probe.magnitude_counts()):
+                a = numpy.asarray(arr)
+                if a.flags.writeable:
+                    a[...] = 7
+        except Exception as e:
+            run.count(f"returned-arrays:could-not-overwrite:{type(e).__name__}")
+        again = _evaluate(base_o, inp, GRIDDED_)
+        nvar += 1
+        run.count("history:base-input-re-evaluated-on-the-same-forecast-objects")
+        judge("events", 900, GRIDDED_, again)
+    # the forecast objects shared by the base input and every second event / catalog variant still hold the rates they were
+    # built from (no evaluation may write into a caller's array)
+    for nm, f, d in (("first", base_o.f1, base_o.d1), ("second", base_o.f2, base_o.d2)):
+        now = numpy.asarray(f.data, dtype=float)
+        if now.shape != d.shape or not numpy.array_equal(now, d):
+            run.oracle_failure(dict(full, evaluation="caller-owned arrays"), f"the rates of the {nm} forecast object changed while "
+                                                                              "the evaluations ran")
     corr.finish()
     run.extra["variants_evaluated"] = run.extra.get("variants_evaluated", 0) + nvar + 1
     run.evaluations += nvar           # every permuted variant is an evaluation of the property's predicate
@@ -1530,7 +1641,7 @@ def run(run, rng, tier):
     shapes = ["single", "qt-single", "row", "qt-quadkeys", "col", "qt-catalog", "rect", "subset", "subset-large"]
     # fixed case counts (deterministic for a seed); the wall-clock budget is only a safety cap on slow machines
     budget = 100.0 if tier == "quick" else 900.0
-    ncases = 115 if tier == "quick" else 1000
+    ncases = 100 if tier == "quick" else 1000
     t0 = time.time()
     k = 0
     while k < ncases and (time.time() - t0 < budget or k < len(shapes)):
